@@ -14,6 +14,7 @@ inductive Ty where
   | nodeI                            -- gedcom.Node (interface)
   | ptr (kind : String)              -- *gedcom.<kind>, a node type, e.g. "IndividualNode"
   | tag                              -- gedcom.Tag (struct)
+  | date                             -- gedcom.Date (struct, passed by value)
   | slice (name : String) (elem : Ty) -- a slice type; `name` is "" for an unnamed `[]elem`
   | opaque (goName : String)         -- any other Go type: known by name only
 deriving DecidableEq, Repr, Inhabited
